@@ -13,8 +13,9 @@ Op vocabulary (one case may hold several runs; `params` starts a fresh run):
                               how many bytes that op drained and how many bytes the real
                               consumer exposes now (`stable_prefix`)
   finish
-  zenc b|c <n>             (hcobs_enc)  right after `params`: ONE call on a piece of `n` zero bytes,
-                           then finish; ends the run
+  zenc b|c <n> [fe]        (hcobs_enc)  right after `params`: ONE call on a piece of `n` zero bytes,
+                           then finish; ends the run (`fe`: the last byte of the full first chunk
+                           is FE instead; `n ≤ zCheckMax`, always replayed on the actual bytes)
   zdec b|c <n> [<cut>]     (hcobs_dec)  right after `params`: the encoding of `n` zero bytes, its
                            first byte (first `cut` bytes) in one call, all the rest in a second
                            call, then finish
@@ -136,9 +137,18 @@ def fmtSummary (sm : Zeros.Summary) : String :=
   "size=" ++ toString sm.size ++ " chunks=" ++ toString sm.chunks ++ " last=" ++ toString sm.last
     ++ " hhash=" ++ toString sm.hhash.toNat
 
-/-- `zenc` on a fresh encoder run (`s.es`, `s.pipe` as `startRun` left them). -/
-def zencCheck (s : St) (m : Method) (n : Nat) : Bool :=
-  let d := Zeros.zeros n
+/-- The piece of `zenc <m> <n> fe`: `n` zeros, except that the last byte of the full first chunk
+(index `maxInit - 1`) is FE when there is one. -/
+def zerosFe (p : Params) (n : Nat) (fe : Bool) : List UInt8 :=
+  if fe && p.maxInit ≤ n then
+    Zeros.zeros (p.maxInit - 1) ++ [FE] ++ Zeros.zeros (n - p.maxInit)
+  else Zeros.zeros n
+
+/-- `zenc` on a fresh encoder run (`s.es`, `s.pipe` as `startRun` left them).  With `fe` the
+chunking (hence the summary) is that of `n` zeros: an FE followed by a zero or by nothing is not a
+stuff sequence. -/
+def zencCheck (s : St) (m : Method) (n : Nat) (fe : Bool := false) : Bool :=
+  let d := zerosFe s.p n fe
   let (es', nid', emits) := Enc.feedAll s.p s.es s.pipe.nextId m d
   let pipe1 := runEmits s.pipe emits
   let pipe' := runEmits pipe1 (Enc.finish s.p es')
@@ -223,6 +233,16 @@ def step (s : St) (ws : List String) : St × List String :=
                     head := "err " ++ fmtErr e ++ " spec=" ++ b01 agree ++ " ",
                     input := [], fresh := false,
                     outBase := pipe'.consumed.length + pipe'.bytes.length }, [])
+      | _, _ => (s, ["bad-op"])
+    else (s, ["bad-op"])
+  | ["zenc", m, n, "fe"] =>
+    -- always replayed on the actual bytes (hence the size limit)
+    if s.isEnc ∧ s.phase = .live ∧ s.fresh ∧ (m = "b" ∨ m = "c") then
+      match parseMethod m, n.toNat? with
+      | some m, some n =>
+        if n > zCheckMax then (s, ["bad-op"]) else
+        ({ s with phase := .done },
+          ["zenc " ++ fmtSummary (Zeros.zeroSummary s.p n) ++ " pending=0 spec=" ++ b01 (zencCheck s m n true)])
       | _, _ => (s, ["bad-op"])
     else (s, ["bad-op"])
   | ["zenc", m, n] =>
